@@ -1021,3 +1021,28 @@ HUGE_PATTERNS = ("split-nested", "fanin-in-split", "splits-nested", "fj-two-leve
 
 def is_huge(s):
     return any(p in s.name for p in HUGE_PATTERNS)
+
+
+# ----------------------------------------------------------------------------- rejected definitions (C19: identical report)
+def rejected_defs():
+    """Definitions that inspection rejects with several entries (the report must be deterministic)."""
+    out = []
+    refs = ["<% ctx().zq %>", "<% ctx().zq + 1 %>", "{{ ctx('zq') }}", "<% ctx(zq) %>"]
+    for i in range(len(refs)):
+        for j in range(len(refs)):
+            if i >= j:
+                continue
+            a, b = refs[i], refs[j]
+            out.append(("R/input-2refs-%d%d" % (i, j), WF({
+                "a": T([N(S, "b")], input={"p": a, "q": b}), "b": T()})))
+            out.append(("R/vars-2refs-%d%d" % (i, j), WF({"a": T()}, vars=[{"p": a}, {"q": b}])))
+            out.append(("R/publish-2refs-%d%d" % (i, j), WF({
+                "a": T([N(S, "b", publish=[("p", a), ("q", b)])]), "b": T()})))
+            out.append(("R/one-expr-2vars-%d%d" % (i, j), WF({
+                "a": T(input={"p": "<% ctx().zq + ctx().zr + ctx().zs %>", "q": b})})))
+    out.append(("R/many-undefined-targets", WF({
+        "a": T([N(S, ["g1", "g2", "g3"]), N(F, ["g3", "g1"])]), "b": T([N(S, "g2")])})))
+    out.append(("R/mixed-faults", WF({
+        "a": T([N("<% 1 +/ 2 %>", "g1", publish=[("p", "<% ctx().zq %>")])], input={"x": "{{ ctx('zr') }}", "y": "<% ctx().zr %>"}),
+        "noop": T()})))
+    return out
